@@ -105,6 +105,9 @@ FIXED = [
     ("C18", "C18/passthrough-script-style-content-escaped", "68d60d0",
      "TAL-free document with < & inside <script>/<style>: content HTML-escaped on every expansion (not equivalent, "
      "not a fixed point)"),
+    ("C03", "C03/history-dependent:GopherProtocol/UMNDirHandler", "4de2aba",
+     "a request for '<dir>/.' (or '/.'): accepted, listed empty (every child '<dir>/./x' is refused) and that empty listing saved "
+     "as the directory cache of the real <dir>: every later client of <dir> got an empty menu until the cache expired (also C10)"),
     ("C12", "C12/request-never-returns@base.py:open", "9f696ad",
      "a FIFO named like a healthy entry's sidecar ('alpha.txt.3d', 'gamma/.abstract') or like its .cap file ('.cap/alpha.txt'): "
      "open() never returns, every listing of the directory hangs"),
